@@ -253,4 +253,53 @@ theorem processNonMove_outs (s : FState α) (cmd : Cmd α) (dE : α) :
       · simp only [h1, h2, he, if_false, Bool.not_false, if_true]
         exact ⟨fun hf => by simp at hf, fun _ => Or.inl ⟨[], by simp, by simp⟩⟩
 
+theorem insertBeforeLast_snoc {β : Type} (pre : List β) (x c : β) :
+    insertBeforeLast (pre ++ [x]) c = (pre ++ [c]) ++ [x] := by
+  simp [insertBeforeLast]
+
+theorem mem_insertBeforeLast {β : Type} (l : List β) (c o : β) (h : o ∈ insertBeforeLast l c) :
+    o = c ∨ o ∈ l := by
+  unfold insertBeforeLast at h
+  rcases List.mem_append.mp h with h | h
+  · rcases List.mem_append.mp h with h | h
+    · exact Or.inr (List.dropLast_subset l h)
+    · left; simpa using h
+  · cases hl : l.getLast? with
+    | none => rw [hl] at h; cases h
+    | some x =>
+      rw [hl] at h
+      have : o = x := by simpa using h
+      subst this
+      exact Or.inr (List.mem_of_getLast? hl)
+
+theorem nonMoveBody_outs (s : FState α) (cmd : Cmd α) (dE pE : α) :
+    (s.excluding = true → ∀ o ∈ (T.nonMoveBody s cmd dE pE).2, EOnly o) ∧
+    (s.excluding = false →
+      (∃ pre, (T.nonMoveBody s cmd dE pE).2 = pre ++ [.orig cmd] ∧ ∀ o ∈ pre, EOnly o) ∨
+      (∀ o ∈ (T.nonMoveBody s cmd dE pE).2, EOnly o)) := by
+  obtain ⟨o1, o2⟩ := processNonMove_outs s cmd dE
+  unfold T.nonMoveBody
+  generalize T.processNonMove s cmd dE = r at *
+  cases s.lastRetraction with
+  | none => exact ⟨o1, o2⟩
+  | some lr =>
+    simp only
+    split
+    · have hall : (∀ o ∈ r.2, EOnly o) → ∀ o ∈ insertBeforeLast r.2 (Out.g92e (n2lAbs r.1.position.e pE)), EOnly o := by
+        intro h o ho
+        rcases mem_insertBeforeLast _ _ _ ho with rfl | ho
+        · trivial
+        · exact h o ho
+      refine ⟨fun he => hall (o1 he), fun he => ?_⟩
+      rcases o2 he with ⟨pre, hpre, hE⟩ | hE
+      · left
+        refine ⟨pre ++ [Out.g92e (n2lAbs r.1.position.e pE)], ?_, ?_⟩
+        · simp only; rw [hpre, insertBeforeLast_snoc]
+        · intro o ho
+          rcases List.mem_append.mp ho with ho | ho
+          · exact hE o ho
+          · simp at ho; subst ho; trivial
+      · right; exact hall hE
+    · exact ⟨o1, o2⟩
+
 end ERP
